@@ -819,6 +819,18 @@ impl Element {
                 let model = self.model()?;
                 let version = self.min_version()?;
                 let mut element = self.0.write();
+                // the path of the target must be acceptable as the text of this reference. This is checked before anything
+                // is changed, so that a refused text does not leave the DEST attribute and the list of references updated
+                let new_text = CharacterData::String(new_ref.clone());
+                if !element
+                    .elemtype
+                    .chardata_spec()
+                    .is_some_and(|spec| CharacterData::check_value(&new_text, spec, version))
+                {
+                    return Err(AutosarDataError::IncorrectContentType {
+                        element: element.element_name(),
+                    });
+                }
                 // set the DEST attribute first - this could fail if the target element has the wrong type
                 if element
                     .set_attribute_internal(AttributeName::Dest, CharacterData::Enum(enum_item), version)
